@@ -801,10 +801,55 @@ class Frame:
         self.assign(st.target, v)
 
     def st_If(self, st):
-        if self.I.decide(self.ev(st.test), f"{self.fi.name}:{st.lineno}"):
+        v = self.ev(st.test)
+        c = self.mux_cond(v)
+        if c is not None and self.if_mux(st, c):
+            return
+        if self.I.decide(v, f"{self.fi.name}:{st.lineno}"):
             self.exec_block(st.body)
         else:
             self.exec_block(st.orelse)
+
+    def mux_cond(self, v):
+        """a non-constant single-bit condition as a form (candidate for if-conversion), else None"""
+        if isinstance(v, AInt) and v.ext is None and (len(v.bits) == 1 or v.isbool):
+            b = self.I.simp(v.bit(0))
+            if isinstance(b, F) and not b.is_const:
+                return b
+        return None
+
+    def if_mux(self, st, c) -> bool:
+        """if-conversion: run both branches on private copies of what they may touch and merge every touched
+        value v as v_else XOR c*(v_then XOR v_else); exact whenever the two sides differ by constants
+        (the CRC register update).  Returns False (nothing changed) when that is not possible."""
+        base_env = self.env
+        touched = mutated_names(st)
+        envs = []
+        for body in (st.body, st.orelse):
+            memo = {}
+            env_i = {k: (snapshot(v, memo) if k in touched else v) for k, v in base_env.items()}
+            self.env = env_i
+            try:
+                self.exec_block(body)
+            except (_Ret, _Break, _Continue, PathRaise, Abort, NeedCases):
+                self.env = base_env
+                return False
+            finally:
+                self.env = base_env
+            envs.append(env_i)
+        merged = {}
+        try:
+            for nme in set(envs[0]) | set(envs[1]):
+                if nme in base_env and nme not in touched:
+                    continue
+                a, b = envs[0].get(nme, _MISSING), envs[1].get(nme, _MISSING)
+                merged[nme] = mux_merge(c, a, b, base_env.get(nme, _MISSING), {})
+        except Abort:
+            return False
+        for nme, (val, commit) in merged.items():
+            commit()
+            base_env[nme] = val
+        return True
 
     def stmt_by_cases(self, st, m, atoms):
         """analyse one statement once per assignment of the atoms its control flow depends on, then merge the
@@ -1279,7 +1324,19 @@ class Frame:
         return self.I.opaque("lambda")
 
     def ev_IfExp(self, n):
-        if self.I.decide(self.ev(n.test), f"ifexp:{n.lineno}"):
+        t = self.ev(n.test)
+        c = self.mux_cond(t)
+        if c is not None:
+            try:
+                a, b = self.ev(n.body), self.ev(n.orelse)
+                v, commit = mux_merge(c, a, b, _MISSING, {})
+                if isinstance(v, ABits) and (v is a or v is b):
+                    items = [mux_bit(c, x, y) for x, y in zip(a.items, b.items)]
+                    return ABits(items, a.kind, a.endian)
+                return v
+            except Abort:
+                pass
+        if self.I.decide(t, f"ifexp:{n.lineno}"):
             return self.ev(n.body)
         return self.ev(n.orelse)
 
@@ -1503,6 +1560,65 @@ def _same(a, b):
         return False
 
 
+def mux_bit(c, a, b):
+    """c ? a : b for bits"""
+    if _same(a, b):
+        return a
+    if isinstance(a, OB) or isinstance(b, OB):
+        raise Abort("mux of opaque")
+    if isinstance(a, F) and isinstance(b, F):
+        d = a ^ b
+        if d.is_const:
+            return b ^ c if d.c else b
+    raise Abort("non-affine mux")
+
+
+def mux_merge(c, a, b, orig, seen):
+    """returns (value, commit) — commit() writes merged content into the original mutable object"""
+    if a is _MISSING or b is _MISSING:
+        raise Abort("name bound on one side only")
+    if isinstance(a, ABits) and isinstance(b, ABits) and len(a.items) == len(b.items) and a.kind == b.kind:
+        items = [mux_bit(c, x, y) for x, y in zip(a.items, b.items)]
+        tgt = orig if isinstance(orig, ABits) else a
+
+        def commit(tgt=tgt, items=items):
+            tgt.items[:] = items
+        return tgt, commit
+    if isinstance(a, AInt) and isinstance(b, AInt) and a.ext is None and b.ext is None:
+        w = max(len(a.bits), len(b.bits))
+        bits = [mux_bit(c, a.bit(j), b.bit(j)) for j in range(w)]
+        return AInt(bits, isbool=a.isbool and b.isbool), (lambda: None)
+    if isinstance(a, AObj) and isinstance(b, AObj) and a.cls is b.cls:
+        if not isinstance(orig, AObj):
+            raise Abort("object created in a data-dependent branch")
+        if id(orig) in seen:
+            return orig, (lambda: None)
+        seen[id(orig)] = True
+        subs = {}
+        for k in set(a.attrs) | set(b.attrs):
+            subs[k] = mux_merge(c, a.attrs.get(k, _MISSING), b.attrs.get(k, _MISSING), orig.attrs.get(k, _MISSING), seen)
+
+        def commit(orig=orig, subs=subs):
+            for k, (v, cm) in subs.items():
+                cm()
+                orig.attrs[k] = v
+        return orig, commit
+    if isinstance(a, list) and isinstance(b, list) and len(a) == len(b):
+        subs = [mux_merge(c, x, y, orig[i] if isinstance(orig, list) and i < len(orig) else _MISSING, seen) for i, (x, y) in enumerate(zip(a, b))]
+        tgt = orig if isinstance(orig, list) else a
+
+        def commit(tgt=tgt, subs=subs):
+            for v, cm in subs:
+                cm()
+            tgt[:] = [v for v, cm in subs]
+        return tgt, commit
+    if _same(a, b):
+        return a, (lambda: None)
+    if isinstance(a, (bool, int)) and isinstance(b, (bool, int)) and a in (0, 1) and b in (0, 1):
+        return AInt([mux_bit(c, cbit(a), cbit(b))], isbool=isinstance(a, bool)), (lambda: None)
+    raise Abort(f"cannot merge {type(a).__name__}/{type(b).__name__}")
+
+
 def merge_cases(atoms, vals, orig):
     """merge per-case values of one variable; containers are merged element-wise INTO the original object"""
     first = vals[0]
@@ -1520,10 +1636,40 @@ def merge_cases(atoms, vals, orig):
         return tgt
     if isinstance(first, (ABits, list, ATable)):
         raise Abort("container changes shape in a data-dependent branch")
-    if isinstance(first, (AObj, dict, AView)):
+    if isinstance(first, AObj):
+        if all(v is first for v in vals):
+            return first
+        if not isinstance(orig, AObj) or not all(isinstance(v, AObj) and v.cls is orig.cls for v in vals):
+            raise Abort("object created in a data-dependent branch")
+        _seen = getattr(merge_cases, "_seen", None)
+        top = _seen is None
+        if top:
+            merge_cases._seen = _seen = set()
+        try:
+            if id(orig) in _seen:
+                return orig
+            _seen.add(id(orig))
+            keys = set()
+            for v in vals:
+                keys.update(v.attrs)
+            for k in keys:
+                orig.attrs[k] = merge_cases(atoms, [v.attrs.get(k, _MISSING) for v in vals], orig.attrs.get(k, _MISSING))
+        finally:
+            if top:
+                merge_cases._seen = None
+        return orig
+    if isinstance(first, dict):
+        if all(v is first for v in vals):
+            return first
+        if not isinstance(orig, dict) or not all(isinstance(v, dict) and set(v) == set(vals[0]) for v in vals):
+            raise Abort("dict changes shape in a data-dependent branch")
+        for k in list(vals[0]):
+            orig[k] = merge_cases(atoms, [v[k] for v in vals], orig.get(k, _MISSING))
+        return orig
+    if isinstance(first, AView):
         if all(v is first for v in vals) or orig is not _MISSING:
             return orig if orig is not _MISSING else first
-        raise Abort("object created in a data-dependent branch")
+        raise Abort("view created in a data-dependent branch")
     return merge_value(atoms, vals)
 
 
